@@ -208,7 +208,7 @@ MUTANTS = [
     {"id": "interval-first-two", "file": D, "old": 'cost_volume.coords["disp"].data[[0, -1]]', "new": 'cost_volume.coords["disp"].data[[0, 1]]'},
     {"id": "to_disp-writes-cv-mask", "file": D, "old": '        disp_map["validity_mask"] = copy.deepcopy(cv["validity_mask"])', "new": '        cv["validity_mask"].data[invalid_pixel] |= 2\n        disp_map["validity_mask"] = copy.deepcopy(cv["validity_mask"])'},
     {"id": "eq-np-all", "kind": "equiv", "file": D, "old": "        invalid_mc = np.min(indices_nan, axis=2)\n        # Pixels where the disparity interval is missing in the right image, have a disparity value invalid_value\n        invalid_pixel = np.where(invalid_mc)\n        disp_map[\"disparity_map\"].data[invalid_pixel] = self._invalid_disparity", "new": "        invalid_mc = np.all(indices_nan, axis=2)\n        # Pixels where the disparity interval is missing in the right image, have a disparity value invalid_value\n        invalid_pixel = np.where(invalid_mc)\n        disp_map[\"disparity_map\"].data[invalid_pixel] = self._invalid_disparity"},
-    {"id": "eq-chunk-128", "kind": "equiv", "edits": [(D, "np.arange(100, ncol, 100), axis=0)\n        y_begin", "np.arange(128, ncol, 128), axis=0)\n        y_begin"), (D, "cv_chunked_x = np.array_split(cv_y, np.arange(100, nrow, 100), axis=1)", "cv_chunked_x = np.array_split(cv_y, np.arange(128, nrow, 128), axis=1)")]},
+    {"id": "eq-chunk-128", "kind": "equiv", "edits": [(D, "np.arange(100, ncol, 100)", "np.arange(128, ncol, 128)", 2), (D, "np.arange(100, nrow, 100)", "np.arange(128, nrow, 128)", 2)]},
     {"id": "eq-rename-cursors", "kind": "equiv", "edits": [(D, "y_begin", "rb", 4), (D, "x_begin", "cb", 4)]},
     {"id": "eq-direct-iteration", "kind": "equiv", "file": D, "old": "            for row, cv_x in enumerate(cv_chunked_x):  # pylint: disable=unused-variable\n", "new": "            for cv_x in cv_chunked_x:\n"},
 ]
